@@ -17,8 +17,8 @@ CHECKS = {
             "BFS over histories of encrypt/decrypt (long-lived and per-request sessions of two processes), clock ticks across the precision / revoke-check / expiry thresholds, out-of-band revocation, restart and session close, for several cache configurations; on every transition decrypt results are compared with the original payload and in every state every catalogued record is decrypted by a fresh SDK factory and by an independent reference decryptor over the metastore snapshot. Fixed mini-runs add 1 MiB / 5 MiB payloads and factories configured with different AWS KMS regions (both plugins).", "6/C01"),
     "C03": ("model_checking", K_TECH + "; AEAD/KMS/allocator call monitors",
             "The same history space with monitors on every AEAD, KMS and secret-allocation call: one fresh data key per encrypt used once and wrapped once, no (key, nonce) repeated in a history (deterministic logged random source), payload only under data keys, data keys only under the partition's IK, IKs only under the SK, SK only to the KMS, and a byte-window leak scan of records, rows and log lines.", "6/C03"),
-    "C04": ("model_checking", K_TECH,
-            "The same history space; on every encrypt transition the named IK's age, the parent SK of every IK row written, and the time since the parent SK expired are computed from row stamps and the virtual clock, independently of the SDK's predicates.", "6/C04"),
+    "C04": ("model_checking", K_TECH + "; deviation-bounded fault enumeration on expiry timelines",
+            "The same history space; on every encrypt transition the named IK's age, the parent SK of every IK row written, and the time since the parent SK expired are computed from row stamps and the virtual clock, independently of the SDK's predicates; plus timelines of a long-lived session around the key lifetime with every placement of up to 2-3 failing metastore reads / KMS unwraps (while writes are accepted no record is handed out under an expired key).", "6/C04"),
     "C05": ("model_checking", K_TECH + "; deviation-bounded fault enumeration on revocation timelines",
             "The same history space with a ghost 'revoked at' stamp per row; every encrypt more than one interval after an IK revocation (two after an SK revocation) must not use / create under the revoked key; plus timelines of a long-lived session around the interval marks with every placement of up to 2-3 failing metastore reads / KMS unwraps (a failed re-check must not be answered from the cached copy).", "6/C05"),
     "C06": ("exploration", "exhaustive enumeration of an adversarial id universe (all ordered pairs) on the real SDK",
@@ -34,7 +34,7 @@ CHECKS = {
     "C15": ("model_checking", "explicit-state breadth-first search over cache operation histories on the real cache against reference models",
             "BFS over Set/Get/Delete/tick/Len/Close histories on 4 keys for lru/lfu/slru/tinylfu, capacities 1..6 and 99/100/101, with/without expiry, synchronous and asynchronous eviction (event goroutine under the controlled scheduler); each step compared with a reference model: values, Len, exact multiset of eviction callbacks, victims per the policy's definition, no panic/deadlock; plus asynchronous eviction with two user goroutines and the event goroutine under the controlled scheduler (callbacks exactly once and delivered before Close returns).", "6/C15"),
     "C19": ("model_checking", "exhaustive enumeration of request sequences against a reference protocol automaton on the real handler",
-            "Every sequence of up to 5 (thorough: 6) requests over a 9-request alphabet plus end-of-stream is sent through an in-memory stream into the real AppEncryption.Session (memory metastore, static KMS); one response per request, protocol state enforced, round-trips verified on a second stream, no panic; plus two concurrent streams on one AppEncryption (with and without session caching) under the controlled scheduler.", "6/C19"),
+            "Every sequence of up to 5 (thorough: 6) requests over a 9-request alphabet plus end-of-stream is sent through an in-memory stream into the real AppEncryption.Session (memory metastore, static KMS); one response per request, protocol state enforced, round-trips verified on a second stream, no panic; plus two concurrent streams on one AppEncryption (with and without session caching) under the controlled scheduler. Plus every structurally malformed decrypt record (each optional sub-message / field absent, truncated, empty, oversized) and typed-nil request bodies in every protocol state, followed by ordinary requests.", "6/C19"),
 }
 
 CHECKS.update({
@@ -45,7 +45,7 @@ CHECKS.update({
     "C11": ("model_checking", "stateless schedule exploration (preemption-bounded DFS) over a shadow page table + exhaustive operation sequences on real pages observed through /proc/self/smaps",
             "(b) every interleaving up to the bound of readers (one nested; callbacks that panic or return an error), closers and an IsClosed poller on one secret of each implementation with a scheduling point inside every callback: callbacks only run on read-only pages with the original bytes, Close returns only after the last reader, later accesses fail, wipe precedes unlock; (a) every operation sequence (incl. callbacks that panic or fail) up to depth 4/5 on real mmap/mlock/mprotect memory for sizes 1 B..3 pages with smaps permissions and VmFlags (lo, dd) checked inside callbacks and after each step, in child processes so that a SIGSEGV is an observation.", "6/C11"),
     "C12": ("fault_enumeration", "deviation-bounded exhaustive enumeration of failing memory primitives over a shadow page table",
-            "Scripts of New/CreateRandom/WithBytes/nested/WithBytesFunc/Reader/Close/Close for both implementations with every placement of up to 2 (thorough: 3) failing primitives (Alloc, Lock, Protect, Unlock, Free, random source): error instead of a degraded secret, no page of a failed creation left mapped or locked, secret bytes zero at unlock, failed open leaves the page inaccessible and the secret usable, failed Close retryable, in-use counter balanced.", "6/C12"),
+            "Scripts of New/CreateRandom/WithBytes/nested/WithBytesFunc/Reader/Close/Close for both implementations with every placement of up to 2 (thorough: 3) failing primitives (Alloc, Lock, Protect, Unlock, Free, random source): error instead of a degraded secret, no page of a failed creation left mapped or locked, secret bytes zero at unlock, failed open leaves the page inaccessible and the secret usable, failed Close retryable, in-use counter balanced. Reads between a failed Close and its retry are refused or exact.", "6/C12"),
     "C13": ("model_checking", "explicit-state breadth-first search (closed state space) over metastore operations against a reference table, through semantic fakes",
             "BFS over Store/Load/LoadLatest on 2 ids x 2 (thorough: 3) stamps x 4 record variants until no new table is reachable, for the memory, SQL (3 dialects + default) and DynamoDB v1/v2 metastores (table name / region suffix variants); the SQL fake parses and executes the statements under the documented schema, the DynamoDB fake evaluates conditions, key conditions, projection, ordering and is eventually consistent unless ConsistentRead is set; every slot is read back after every transition; DynamoDB variants with transient read errors (a retry must not become a stale read); plus every interleaving of 2-3 concurrent Stores of one key (and a reader) on the in-memory metastore.", "6/C13"),
     "C14": ("model_checking", "stateless schedule exploration with context switches placed at external calls (unbounded for 2 processes) + happens-before caching",
